@@ -52,15 +52,31 @@ def cond_coq(name):
             "with_exc": C("CWithExc", [Z(1)]), "only_exc": C("COnlyExc", [Z(1)])}[name]
 
 
-def ttl_py(spelling, n):
-    if spelling == "int": return n
-    if spelling == "float": return float(n)
-    if spelling == "timedelta": return datetime.timedelta(seconds=n)
-    if spelling == "str": return "1m" if n == 60 else f"{n}s"
+def _td(ticks):
+    """a timedelta spelled with days / hours / seconds / milliseconds components"""
+    ms = ticks * 1000 // 16
+    days, ms = divmod(ms, 86400000)
+    hours, ms = divmod(ms, 3600000)
+    secs, ms = divmod(ms, 1000)
+    return datetime.timedelta(days=days, hours=hours, seconds=secs, milliseconds=ms)
+
+
+def _dstr(n):
+    d, n = divmod(n, 86400); h, n = divmod(n, 3600); m, s_ = divmod(n, 60)
+    return "".join(f"{v}{u}" for v, u in ((d, "d"), (h, "h"), (m, "m"), (s_, "s")) if v) or "0s"
+
+
+def ttl_py(spelling, ticks):
+    whole = ticks % 16 == 0
+    n = ticks // 16 if whole else ticks / 16
+    if spelling == "int" and whole: return n
+    if spelling == "str" and whole: return _dstr(n)
+    if spelling in ("float", "int", "str"): return float(ticks) / 16
+    if spelling == "timedelta": return _td(ticks)
     if spelling == "callable": return lambda *a, **k: n
     if spelling == "callable_result":
         def f(*a, result=None, **k):
-            return datetime.timedelta(seconds=n)
+            return _td(ticks)
         return f
     raise KeyError(spelling)
 
@@ -69,8 +85,8 @@ def gen_cases(rng, tier):
     cases = []
     n = 500 if tier == "quick" else 6000
     for _ in range(n):
-        secs = rng.choice([1, 2, 3, 60])
-        T = 16 * secs
+        T = rng.choice([16, 32, 48, 960, 24, 40, 16 * 90000, 16 * 86400 * 2])   # 1 s ... 2 days, incl. 1.5 s and 2.5 s
+        secs = T / 16
         calls = []
         for _ in range(rng.randint(1, 25)):
             adv = rng.choice([0, 0, 0, 8, T - 2, T, T + 2, 2 * T, 2]) if rng.random() < 0.6 else 0
@@ -78,8 +94,8 @@ def gen_cases(rng, tier):
         cases.append({"kind": "simple", "secs": secs, "spelling": rng.choice(["int", "float", "timedelta", "str", "callable", "callable_result"]),
                       "cond": rng.choice(CONDS), "calls": calls, "script": [rng.choice(SCRIPT) for _ in range(26)]})
     for _ in range(n // 2):
-        secs = rng.choice([1, 2, 3])
-        T = 16 * secs
+        T = rng.choice([16, 32, 48, 24, 16 * 90000])
+        secs = T / 16
         calls = []
         for _ in range(rng.randint(1, 12)):
             adv = rng.choice([0, 0, 8, T - 2, T, T + 2, 2 * T]) if rng.random() < 0.6 else 0
@@ -128,7 +144,7 @@ def run_impl(case):
         await cache.init()
         ex = {"n": 0}
         steps = []
-        ttl = ttl_py(case["spelling"], case["secs"])
+        ttl = ttl_py(case["spelling"], round(case["secs"] * 16))
         cond = cond_py(case["cond"])
         await asyncio.sleep(TICK)
         if kind == "simple":
@@ -203,7 +219,7 @@ def to_coq(case, obs):
         o = obs["out"]
         out = Some(Z(o)) if isinstance(o, int) else (None if o is None else Some(Z(-424242)))
         return C("CTtl", S(case["raw"]), comps, out)
-    T = Z(16 * case["secs"])
+    T = Z(round(16 * case["secs"]))
     if kind == "simple":
         h, o = [], []
         for st in obs["steps"]:
